@@ -88,3 +88,12 @@ def shape_spec(rng, version, tier, name='shape', want_skin=None, allow_kinds=Tru
     if rng.chance(0.15):
         s['lockednorm'] = True
     return s
+
+
+def maybe_attach(rng, init, p=0.3, nshapes=1):
+    """With probability p, populated blocks of arbitrary registered types are hung type-correctly below a shape of an API-built
+    model (controllers, extra data, collision objects, properties, ... via carrier blocks where needed; sim/gen.cpp attachBelowShape)."""
+    if 'builder' in init and rng.chance(p):
+        init['attach'] = [{'type_index': rng.below(100000), 'seed': rng.below(1 << 20), 'shape': rng.below(max(1, nshapes)), 'required': False}
+                          for _ in range(rng.range(1, 2))]
+    return init
